@@ -474,7 +474,8 @@ def g_union(rng, nmax=6, nested=False):
         elif r < 0.8:
             parts.append(g_expr(rng, m, depth=2, p_const=0.0, p_src=0.1, prefix_name=pre))
         else:
-            parts.append(f"{pre}0, {pre}1\n{pre}1, {pre}0" if rng.random() < 0.5 else f"{pre}0, !{pre}1\n{pre}1, !{pre}0")
+            # positive cycle, bistable pair, or an oscillator (negative cycle: no stable motif at all)
+            parts.append(rng.choice([f"{pre}0, {pre}1\n{pre}1, {pre}0", f"{pre}0, !{pre}1\n{pre}1, !{pre}0", f"{pre}0, !{pre}1\n{pre}1, {pre}0"]))
             m = 2
         left -= m
     text = "\n".join(parts)
@@ -494,8 +495,30 @@ def g_union(rng, nmax=6, nested=False):
             left -= 1
         names = [l.split(",")[0].strip() for l in text.split("\n")]
     if left >= 1 and rng.random() < 0.5:
-        text += f"\nz, {rand_expr(rng, rng.sample(names, min(len(names), 3)), 2)}"
+        e = rand_expr(rng, rng.sample(names, min(len(names), 3)), 2)
+        text += f"\nz, {e}" if rng.random() < 0.6 else f"\nz, ({e}) | z"
     return text
+
+
+def g_oscillators(rng, nmax=6):
+    """Two or three independent modules without any stable motif (negative cycles, negative self-loops): source SCCs
+    whose own succession diagrams are trivial, feeding downstream latches / functions."""
+    lines, names = [], []
+    for pre in "pqr"[:rng.randint(2, 3)]:
+        if len(lines) + 2 > nmax - 1:
+            break
+        if rng.random() < 0.7:
+            lines += [f"{pre}0, !{pre}1", f"{pre}1, {pre}0"]
+            names += [f"{pre}0", f"{pre}1"]
+        else:
+            lines.append(f"{pre}0, !{pre}0")
+            names.append(f"{pre}0")
+    for d in ("e", "f")[:rng.randint(1, 2)]:
+        if len(lines) >= nmax:
+            break
+        e = rand_expr(rng, rng.sample(names, min(len(names), rng.randint(1, 3))), rng.randint(1, 2))
+        lines.append(rng.choice([f"{d}, ({e}) | {d}", f"{d}, ({e}) & {d}", f"{d}, {e}", f"{d}, ({e}) | {d}"]))
+    return "\n".join(lines)
 
 
 def g_mixed(rng, nmax=6, p_core=0.4):
